@@ -244,6 +244,12 @@ size_t varintFloatEncode(uint8_t *output, const double *values,
             } else {
                 /* Reduced precision: truncate from 53 bits to target */
                 mantissas[i] = truncateMantissa(mantissas[i], 53, mant_bits);
+                /* Rounding can carry out of the field (all kept bits were
+                 * ones): the value is then 1.0 x 2^(exponent + 1) */
+                if (mantissas[i] >> mant_bits) {
+                    mantissas[i] >>= 1;
+                    exponents[i]++;
+                }
             }
         }
     }
